@@ -246,3 +246,17 @@ def reaches_with_bool(cfg, body, var, start_blocks, start_val, targets, cut_bloc
             if s2 not in cut_blocks:
                 st.append((s2, v))
     return False
+
+
+def dominating_edge_labels(cfg, body, ev, block, entry=0):
+    """labels of the branch edges every path from the entry to `block` must take"""
+    out = []
+    for gb, blk in enumerate(body.blocks):
+        t = blk["term"]
+        if blk["cleanup"] or t["k"] != "switch":
+            continue
+        for s in cfg.succ[gb]:
+            lab = ev.generic_edge(gb, t, s)
+            if lab and not reaches_without(cfg, [entry], block, cut_edges=[(gb, s)]):
+                out.append(lab)
+    return out
